@@ -65,6 +65,10 @@ CLAIMED = {
  'C13': ('Proved on the same hand model: in curve mode every result segment is a fresh straight edge between consecutive Clipper vertices or a LUT value, every LUT value is a pre-split piece or its reverse, every pre-split piece is a sub-curve s(a+u(b-a)) of an input segment (C01 retrace lemmas); an empty clip gives no paths; inputs not rebound. '
          'The distance clause is measured; the connectivity/region sentence for crossing curved outlines is violated by the code (recorded known finding) and watched by the search.',
          'same model; provenance by induction over the reconstruction loop and the split walk; search of provenance, distance, purity and the region sentence', '4/C13'),
+ 'C07': ('Proved on a heap model (list objects, segment objects with _orig, paths with representation and closed flag; 17 operations transcribing which Python objects are rebound, mutated in place, shared or allocated) tied by exact correspondence on random histories incl. the aliasing graph: for histories of ANY length, every operation keeps a connected chain connected with exact joins, never changes a closed flag, '
+         'maps the end points as stated (identity / swap / translate / rotate / scale / truncate / first-last rule); writes happen only in the receiver\'s objects; clone and flatten do not write pre-existing objects; after clone the reachable object sets are disjoint, so no later sequence of operations on either path changes the other. '
+         'Four clauses fail on the code and are recorded known findings with refutation witnesses (append joins by tolerance equality; aliasing through Line.flatten/append; p.append(p); append to a closed receiver).',
+         'heap model + frame/invariant proofs by induction over operation lists; history correspondence with shrinking; stateful search of connectivity, closedness, end points, purity and clone independence', '4/C07'),
 }
 PENDING_REASON = 'machinery for this property is not built yet in this revision (see DESIGN section 7); it is not claimed on the strength of a search alone'
 ALL = ['C%02d' % i for i in range(1, 21)]
